@@ -132,3 +132,46 @@ void h_fuzzy_out_buffer(void)
     ASSERT((f.kp == bkp || bkp != bkp) && (f.ki == bki || bki != bki) && (f.kd == bkd || bkd != bkd), "out_: base gains untouched");
     VERIF_CANARY();
 }
+
+/* ---- [B one active set per input] gain scheduling picks the consequents of the ACTIVE rule:
+        with exactly one active e-set (index ie, degree 1) and one active ec-set (index iec, degree 1) and the min
+        operator every weight is exactly 1, so the derived gains are exactly base + table[ie * nrule + iec] for each
+        table that is present, and the base gain for an absent table ---- */
+unsigned verif_mf_calls, verif_mf_pick[2];
+#ifndef VERIF_NATIVE
+unsigned int contract_a_pid_fuzzy_mf_one(a_real x, unsigned int n, a_real const *a, unsigned int *idx, a_real *val)
+    __CPROVER_requires(verif_mf_calls < 2 && verif_mf_pick[0] < n && verif_mf_pick[1] < n)
+    __CPROVER_requires(__CPROVER_w_ok(idx, sizeof(unsigned int)) && __CPROVER_w_ok(val, sizeof(a_real)))
+    __CPROVER_assigns(*idx, *val, verif_mf_calls)
+    __CPROVER_ensures(__CPROVER_return_value == 1 && *val == 1.0)
+    __CPROVER_ensures(*idx == verif_mf_pick[__CPROVER_old(verif_mf_calls)])
+    __CPROVER_ensures(verif_mf_calls == __CPROVER_old(verif_mf_calls) + 1);
+#endif
+void h_fuzzy_out_gain(void)
+{
+    a_pid_fuzzy f;
+    ND(unsigned, nrule, u32); ND(a_real, e, double); ND(a_real, ec, double); ND(unsigned, ie, u32); ND(unsigned, iec, u32);
+    ASSUME(1 <= nrule && nrule <= 4 && ie < nrule && iec < nrule);
+    verif_mf_calls = 0; verif_mf_pick[0] = ie; verif_mf_pick[1] = iec;
+    void *blk = malloc(A_PID_FUZZY_BFUZZ(1));
+    ASSUME(blk != A_NULL);
+    a_pid_fuzzy_set_bfuzz(&f, blk, 1);
+    ND(_Bool, hp, bool); ND(_Bool, hi, bool); ND(_Bool, hd, bool);
+    a_real tp[16], ti[16], td[16];
+    unsigned k;
+    for (k = 0; k < 16; ++k) { int vp, vi, vd; ND_ARR(vp, tp, k, int); ND_ARR(vi, ti, k, int); ND_ARR(vd, td, k, int); ASSUME(-64 <= vp && vp <= 64 && -64 <= vi && vi <= 64 && -64 <= vd && vd <= 64); tp[k] = vp; ti[k] = vi; td[k] = vd; }
+    a_real me[1], mec[1];
+    me[0] = 0; mec[0] = 0;
+    a_pid_fuzzy_set_rule(&f, nrule, me, mec, hp ? tp : (a_real *)A_NULL, hi ? ti : (a_real *)A_NULL, hd ? td : (a_real *)A_NULL);
+    a_pid_fuzzy_set_opr(&f, A_PID_FUZZY_CAP);
+    ND(int, bp, int); ND(int, bi, int); ND(int, bd, int);
+    ASSUME(-64 <= bp && bp <= 64 && -64 <= bi && bi <= 64 && -64 <= bd && bd <= 64);
+    a_pid_fuzzy_set_kpid(&f, bp, bi, bd);
+    a_pid_fuzzy_out_(&f, ec, e);
+    ASSERT(verif_mf_calls == 2, "out_: both inputs are fuzzified");
+    ASSERT(f.pid.kp == (hp ? bp + tp[ie * nrule + iec] : (a_real)bp), "out_: Kp is the base gain plus the consequent of the active rule (e-set, ec-set)");
+    ASSERT(f.pid.ki == (hi ? bi + ti[ie * nrule + iec] : (a_real)bi), "out_: Ki is the base gain plus the consequent of the active rule, also when the Kp table is absent");
+    ASSERT(f.pid.kd == (hd ? bd + td[ie * nrule + iec] : (a_real)bd), "out_: Kd is the base gain plus the consequent of the active rule, also when the Kp/Ki tables are absent");
+    free(blk);
+    VERIF_CANARY();
+}
